@@ -289,6 +289,7 @@ package graphql
 //@   functional
 //@   assigns nothing
 //@   nopanic
+//@   requires !(typeis(ttype, "*graphql.NonNull") && as(ttype, "*graphql.NonNull") == nil)
 //@   ensures typeis(ttype, "*graphql.NonNull") && as(ttype, "*graphql.NonNull") != nil ==> result == as(ttype, "*graphql.NonNull").OfType
 //@   ensures !typeis(ttype, "*graphql.NonNull") ==> result == ttype
 
